@@ -360,6 +360,13 @@ impl Virtio {
         }
     }
 
+    pub fn set_dirty(&self, addr: u64) {
+        use vm_memory::bitmap::Bitmap;
+        if let Some((base, _)) = self.region_of(addr) {
+            self.bitmap_of(base).mark_dirty((addr - base) as usize, 1);
+        }
+    }
+
     pub fn is_dirty(&self, addr: u64) -> bool {
         match self.region_of(addr) {
             Some((base, _)) => self.bitmap_of(base).is_addr_set((addr - base) as usize),
